@@ -692,7 +692,7 @@ theorem raw_next (t : Nat) (h : t ∉ [0x199e, 0x6558, 0x8847, 0x8100, 0x0800, 0
   have e : t / 256 * 256 + t % 256 = t := by omega
   simp only [List.mem_cons, List.not_mem_nil, or_false, not_or] at h
   obtain ⟨h1, h2, h3, h4, h5, h6⟩ := h
-  refine ⟨Parser.none.keys ++ ["etype" ++ natStr (t % 256), "etype0x" ++ hex4 (t % 256)], ?_⟩
+  refine ⟨Parser.none.keys ++ ["etype" ++ natStr t, "etype0x" ++ hex4 t], ?_⟩
   simp [nextParserEtype, e, h1, h2, h3, h4, h5, h6]
 
 theorem ep_next {ports : List PortEntry} (ep : EtherPayload) (h : EpWF ports ep) :
